@@ -320,8 +320,9 @@ def check_b(ck, repo):
                 v = ast.parse(pv[0], mode="eval").body
             except SyntaxError:
                 v = None
-            if isinstance(v, ast.DictComp) and len(v.generators) == 1 and _t(v.generators[0].iter) == f"{R}.items()" and isinstance(v.value, ast.Subscript) and isinstance(v.generators[0].target, ast.Tuple):
-                k_, r_ = [_t(e) for e in v.generators[0].target.elts]
+            if isinstance(v, ast.DictComp) and len(v.generators) == 1 and _t(v.generators[0].iter) == f"{R}.items()" and isinstance(v.value, ast.Subscript) and isinstance(v.generators[0].target, (ast.Tuple, ast.Name)):
+                tg = v.generators[0].target
+                k_, r_ = [_t(e) for e in tg.elts] if isinstance(tg, ast.Tuple) else (f"{tg.id}[0]", f"{tg.id}[1]")
                 if _t(v.key) == k_ and _t(v.value.slice) == r_:
                     perm_src = v.value.value.id if isinstance(v.value.value, ast.Name) else v.value.value
             elif isinstance(v, ast.Name) and v.id == R:
